@@ -640,6 +640,22 @@ func (r *vRepoC03) vDrawMutC03(t *rapid.T, packsOnly bool) vMutC03 {
 		backend.IndexFile, backend.IndexFile, backend.SnapshotFile, backend.SnapshotFile, backend.KeyFile, backend.KeyFile, backend.ConfigFile}
 	ft := backend.PackFile
 	if !packsOnly {
+		if rapid.IntRange(0, 13).Draw(t, "notdepended") == 0 {
+			// changes the model says no snapshot depends on: check may stay silent, oracle (2) still applies
+			var cand []vMutC03
+			for _, k := range r.files {
+				del := vMutC03{Type: k.Type.String(), Name: k.Name, Op: "delete", Where: vTypeNameC03(k.Type) + "/whole"}
+				if k.Type != backend.KeyFile && !r.depended(del) {
+					cand = append(cand, del)
+				}
+				if k.Type == backend.KeyFile && k.Name != r.keyID {
+					cand = append(cand, del, vMutC03{Type: k.Type.String(), Name: k.Name, Op: "flip", Off: r.sizes[k] / 3, Bit: 1, Where: "key/other"})
+				}
+			}
+			if len(cand) > 0 {
+				return cand[rapid.IntRange(0, len(cand)-1).Draw(t, "ndcand")]
+			}
+		}
 		ft = rapid.SampledFrom(types).Draw(t, "ftype")
 	}
 	fs := r.filesOf(ft)
